@@ -54,7 +54,7 @@ def run_scenarios(ctx, prop, n, steps=60, profile="mixed", scenario_cls=Scenario
     for kk, vv in stat.items(): ctx.count("client:" + kk, vv)
     # the composed model must accept every transcript (tie of the end-to-end theorems in Props/C01,C03,C05,C07,C08,C14)
     import trace_check
-    if isinstance(prop, str) and (prop in trace_check.TRACE_PROPS or prop in trace_check.CONTENT_PROPS or prop in trace_check.DISC_PROPS):
+    if isinstance(prop, str) and (prop in trace_check.TRACE_PROPS or prop in trace_check.CONTENT_PROPS or prop in trace_check.DISC_PROPS or prop in trace_check.KA_PROPS):
         trace_check.check(ctx, prop, for_trace)
     return fails
 
